@@ -43,9 +43,13 @@ def main():
             print("EXC-OPEN %s: %s" % (type(e).__name__, e)); return 1
         print("OPEN", flush=True)
         its = {}
+        keep, rc = False, 0
         for line in sys.stdin:
             a = line.split()
             if not a:
+                continue
+            if a[0] == "keepgoing":          # an error does not end the script: later calls are still performed
+                keep = True
                 continue
             try:
                 if a[0] == "close":
@@ -80,8 +84,10 @@ def main():
                     print("OK took %d %s" % (k, "end" if exhausted else "more"), flush=True)
             except Exception as e:
                 print("EXC %s: %s" % (type(e).__name__, str(e).replace("\n", " ")[:200]), flush=True)
-                return 1
-        return 0
+                if not keep:
+                    return 1
+                rc = 1
+        return rc
     else:
         W = getattr(m, ("Binary" if fmt == "binary" else "NDJson") + proto + "Writer")
         # default values: read them from a template stream is not possible here; use the model's defaults through get_dtype-less
@@ -91,9 +97,13 @@ def main():
         except Exception as e:
             print("EXC-OPEN %s: %s" % (type(e).__name__, e)); return 1
         print("OPEN", flush=True)
+        keep, rc = False, 0
         for line in sys.stdin:
             a = line.split()
             if not a:
+                continue
+            if a[0] == "keepgoing":
+                keep = True
                 continue
             try:
                 if a[0] == "close":
@@ -109,8 +119,10 @@ def main():
                     print("OK", flush=True)
             except Exception as e:
                 print("EXC %s: %s" % (type(e).__name__, str(e).replace("\n", " ")[:200]), flush=True)
-                return 1
-        return 0
+                if not keep:
+                    return 1
+                rc = 1
+        return rc
 
 
 sys.exit(main())
